@@ -60,12 +60,14 @@ pub struct Case {
     pub maintain: bool,
     /// (which fsync, errno) to fail, if any
     pub fault: Option<(i64, i32)>,
+    /// how the builder is obtained (ops::BUILDER_STYLE): auto-sync is the default whichever way
+    pub builder: u8,
 }
 
 impl Case {
     fn to_json(&self) -> Value {
         json!({"cell": self.cell.to_json(), "planted": size_code(self.planted), "maintain": self.maintain,
-               "fault": self.fault.map(|f| json!([f.0, f.1]))})
+               "fault": self.fault.map(|f| json!([f.0, f.1])), "builder": self.builder})
     }
     fn from_json(v: &Value) -> Case {
         Case {
@@ -73,6 +75,7 @@ impl Case {
             planted: code_size(v["planted"].as_u64().unwrap()),
             maintain: v["maintain"].as_bool().unwrap(),
             fault: v["fault"].as_array().map(|a| (a[0].as_i64().unwrap(), a[1].as_i64().unwrap() as i32)),
+            builder: v["builder"].as_u64().unwrap_or(0) as u8,
         }
     }
 }
@@ -102,7 +105,9 @@ fn run_case(case: &Case) -> CellRun {
             Arc::new(FsyncFault { nth, errno, seen: AtomicI64::new(0) }) as Arc<dyn Controller>
         })
     });
+    crate::ops::BUILDER_STYLE.with(|b| b.set(case.builder));
     let run = run_cell(&case.cell);
+    crate::ops::BUILDER_STYLE.with(|b| b.set(0));
     PLANTED_SIZE.with(|s| s.set(Size::Five));
     FORCE_MAINTENANCE.with(|f| f.set(false));
     CONTROLLER.with(|c| *c.borrow_mut() = None);
@@ -265,7 +270,16 @@ fn base_cases() -> Vec<Case> {
                             planted: if size == Size::Empty { Size::One } else { size },
                             maintain,
                             fault: None,
+                            builder: 0,
                         });
+                        // auto-sync left at its default, with the builder obtained the other two ways
+                        if auto_sync && !maintain && size == Size::One {
+                            for builder in [1u8, 2] {
+                                let mut c = out.last().unwrap().clone();
+                                c.builder = builder;
+                                out.push(c);
+                            }
+                        }
                     }
                 }
             }
@@ -310,7 +324,8 @@ pub fn run(_tier: Tier, shard: Shard, rep: &mut Report) {
     rep.rule = "every publishing path (set/put by path and by temp-file object onto absent and present keys, ensure and \
         get_or_update misses, Replace on a primary and on a secondary hit, Promote from plain and sharded read-only levels, key living \
         in the secondary shard) x writer {plain, sharded} x value size {0 B, 1 B, 3 x 8 KiB} x maintenance {fires, does not} x \
-        auto_sync {on, off as a control of the monitor}; per published inode the trace must show last content event < successful \
+        auto_sync {on, off as a control of the monitor}, the builder obtained by CacheBuilder::new(), by Default::default() and by \
+        re-using a builder after take() (auto-sync never mentioned: it must default to on); per published inode the trace must show last content event < successful \
         fsync < chmod stripping write bits <= publication, and no content/mode event afterwards. Then, for every auto_sync cell, each \
         fsync fails in turn with EIO and ENOSPC: the call must fail (or panic with the documented message for by-path set/put) and \
         that inode must never be published. The same per-inode monitor also runs on every schedule with <= 2 preemptions of programs \
